@@ -455,7 +455,10 @@ impl<'c> Runner<'c> {
 							std::mem::forget(g);
 							(out, None)
 						}
-						Exit::Panic => std::panic::panic_any(UserPanic),
+						Exit::Panic => {
+							mark(7);
+							std::panic::panic_any(UserPanic)
+						}
 						Exit::Unlock => {
 							let k = unlock_any(g, node);
 							mark(5);
@@ -509,6 +512,7 @@ impl<'c> Runner<'c> {
 					let mut rd = |pos: usize| unsafe { (*dp).read_any(pos) };
 					this.body(ses, &mut wr, &mut rd);
 					if ses.exit == Exit::Panic {
+						mark(7);
 						std::panic::panic_any(UserPanic)
 					}
 				};
